@@ -25,7 +25,9 @@ impl LineSpectralPairs {
     }
 
     fn lsp2lpc(&self) -> MelGeneralizedCepstrum {
-        let m = self.len();
+        // The first element is the gain; the line spectral frequencies follow.
+        let lsp = &self[1..];
+        let m = lsp.len();
         let (mh1, mh2) = if m % 2 == 0 {
             (m / 2, m / 2)
         } else {
@@ -33,8 +35,8 @@ impl LineSpectralPairs {
             ((m + 1) / 2, (m - 1) / 2)
         };
 
-        let p: Vec<_> = self.iter().step_by(2).map(|x| -2.0 * x.cos()).collect();
-        let q: Vec<_> = self
+        let p: Vec<_> = lsp.iter().step_by(2).map(|x| -2.0 * x.cos()).collect();
+        let q: Vec<_> = lsp
             .iter()
             .skip(1)
             .step_by(2)
